@@ -76,6 +76,7 @@ type FuncContract struct {
 	GuardFields []string
 	GuardFieldLocks []*Expr
 	GuardSrc  []string
+	LoopWritesWhole []string
 	LoopWrites []*Expr  // pre-existing maps/arrays that loops of this function may write (excluded from row preservation)
 	Entry     []string // entry assumptions justified by meta-arguments (e.g. nolocks)
 }
@@ -98,6 +99,7 @@ type Contracts struct {
 	Frames  map[string][]string
 	Templates map[string]*Template
 	LockInvs  map[string]*Clause
+	GhostAttrs map[string][2]string
 }
 
 type Template struct {
@@ -106,7 +108,7 @@ type Template struct {
 }
 
 func NewContracts() *Contracts {
-	return &Contracts{Funcs: map[string]*FuncContract{}, Preds: map[string]*PredDef{}, Decls: map[string]string{}, Frames: map[string][]string{}, Templates: map[string]*Template{}, LockInvs: map[string]*Clause{}}
+	return &Contracts{Funcs: map[string]*FuncContract{}, Preds: map[string]*PredDef{}, Decls: map[string]string{}, Frames: map[string][]string{}, Templates: map[string]*Template{}, LockInvs: map[string]*Clause{}, GhostAttrs: map[string][2]string{}}
 }
 
 func parseTags(s string) ([]string, string) {
@@ -299,6 +301,18 @@ func (cs *Contracts) LoadFile(path, pkgPath string) error {
 			cs.Preds[pd.Name] = pd
 			cur = nil
 			return nil
+		case "ghostattr":
+			// ghostattr pkg.Type name = int : initial value of a ghost attribute of freshly allocated objects
+			fs := strings.Fields(rest)
+			if len(fs) != 4 || fs[2] != "=" {
+				return fmt.Errorf("%s:%d: ghostattr T name = value", path, ln)
+			}
+			k := fs[0]
+			if !strings.Contains(k, "/") && pkgPath != "" {
+				k = pkgPath + "." + k
+			}
+			cs.GhostAttrs[k] = [2]string{fs[1], fs[3]}
+			return nil
 		case "lockinv":
 			// lockinv pkg.Type.lockfield := pred-expression over `self` (the owner object)
 			i := strings.Index(rest, ":=")
@@ -398,7 +412,12 @@ func (cs *Contracts) LoadFile(path, pkgPath string) error {
 			cur.GuardFieldLocks = append(cur.GuardFieldLocks, e2)
 		case "loopwrites":
 			for _, it := range splitTop(rest) {
-				e, err := ParseExpr(strings.TrimSpace(it))
+				it = strings.TrimSpace(it)
+				if strings.HasPrefix(it, "mapsof(") || strings.HasPrefix(it, "elemsof(") {
+					cur.LoopWritesWhole = append(cur.LoopWritesWhole, it)
+					continue
+				}
+				e, err := ParseExpr(it)
 				if err != nil {
 					return fmt.Errorf("%s:%d: %v", path, ln, err)
 				}
